@@ -42,9 +42,9 @@ var faultPoints = []struct {
 	{"write-file-created", []string{"close", "readonly"}, "first Encode"},
 	{"write-before-encode", []string{"close", "readonly"}, "Encode"},
 	{"write-before-sync", []string{"close"}, "Sync"},
-	{"finalise-before-seek", []string{"close"}, "Seek"},
-	{"finalise-before-decode", []string{"close", "corrupt"}, "Decode (Finalise)"},
-	{"pull-before-decode", []string{"close", "corrupt"}, "Decode (Pull)"},
+	{"finalise-before-seek", []string{"close", "truncate"}, "Seek"},
+	{"finalise-before-decode", []string{"close", "corrupt", "truncate"}, "Decode (Finalise)"},
+	{"pull-before-decode", []string{"close", "corrupt", "truncate"}, "Decode (Pull)"},
 }
 
 func workload(chunk, n int, structT, concurrent bool) mx.History {
